@@ -82,7 +82,7 @@ def run(ctx):
     ctx.assume("char::escape_unicode yields \\u{<lower hex>} (documented); pure-ASCII output of the class printer and re-decodability are not decided")
     prog = common.view(ctx, "default")
     lib = prog.lib
-    roles = common.role_fields(ctx, lib)
+    roles = common.role_fields(ctx, lib, want=("escape", "surrogate"))
     fns = find_escape_fn(lib)
     if len(fns) != 1:
         ctx.anchor_lost("ESCP-1", "per-character escaper (found %d)" % len(fns))
@@ -220,9 +220,9 @@ def run(ctx):
         else:
             ctx.violation("ESCP-2", (cb.path, "char map"), "the non-ASCII pass does not map str::chars() through the per-character escaper", cb.loc())
     # (b) the literal printer escapes on every path, with the Literal's flags
-    printers = [b for b in lib.bodies if b.kind == "closure" and any(callee_name(t) == S.path for _, t in b.calls())
+    printers = [b for b in lib.bodies if b.kind in ("closure", "fn", "assoc_fn") and b is not S and any(callee_name(t) == S.path for _, t in b.calls())
                 and any((callee_name(t) or "").endswith("to_string") for _, t in b.calls())]
-    if not ctx.floor("ESCP-2", "literal printer closures", len(printers), 1):
+    if not ctx.floor("ESCP-2", "literal printers (escape, then print each grapheme)", len(printers), 1):
         return
     for pb in printers:
         fi = guards.FnInfo.of(pb)
@@ -234,6 +234,10 @@ def run(ctx):
                 for bi, t in pb.calls():
                     if any(x[0] == "agg" and x[2] == cc.path for a in t["args"] for x in local.walk(fi.defs.operand(a))):
                         esc_blocks.append(bi)
+        # a loop nested in the per-grapheme loop whose body escapes (one call per repeated grapheme) is an escape site like the for_each call
+        for head, body_blocks in fi.cfg.natural_loops().items():
+            if any(e in body_blocks for e in esc_blocks) and not all(tb in body_blocks for tb in ts):
+                esc_blocks.append(head)
         okp = True
         for tb in ts:
             # every path entry -> to_string passes an escape block
@@ -259,7 +263,12 @@ def run(ctx):
                 continue
             a1 = local.peel(fi.defs.operand(t["args"][1]))
             a2 = local.peel(fi.defs.operand(t["args"][2]))
-            if a1[0] == "upvar" and a2[0] == "upvar" and [c_["name"] for c_ in pb.captures].index(a1[1]) < [c_["name"] for c_ in pb.captures].index(a2[1]):
+            if a1[0] == "param" and a2[0] == "param":
+                if a1[1] < a2[1] and pb.sig_inputs[a1[1] - 1] == "bool" and pb.sig_inputs[a2[1] - 1] == "bool":
+                    ctx.ok("ESCP-2", pb.path + ":flags forwarded in order", {"escape": local.show(a1), "surrogate": local.show(a2)}, pb.loc(t.get("line")))
+                else:
+                    ctx.violation("ESCP-2", (pb.path, "flag order"), "escape/surrogate flags reach the escaper as (%s, %s)" % (local.show(a1), local.show(a2)), pb.loc(t.get("line")))
+            elif a1[0] == "upvar" and a2[0] == "upvar" and [c_["name"] for c_ in pb.captures].index(a1[1]) < [c_["name"] for c_ in pb.captures].index(a2[1]):
                 o1 = ups[[c_["name"] for c_ in pb.captures].index(a1[1])]
                 o2 = ups[[c_["name"] for c_ in pb.captures].index(a2[1])]
                 if local.peel(o1)[0] == "param" and local.peel(o2)[0] == "param" and local.peel(o1)[1] < local.peel(o2)[1]:
